@@ -303,6 +303,38 @@ func TestCheck(t *testing.T) {
 	}
 	r.Sampled()
 
+	// Phase C2: a complete valid date followed or preceded by something else (every 1- and 2-byte tail over a small alphabet,
+	// date-like and time-like tails, white space of every kind), limits disabled / raised / default.
+	r.Phase("C2: valid dates with tails and heads (all 1- and 2-byte tails over {0,1,9,-,T,space,:,x}, time-of-day and white-space tails)", func() {
+		alpha := []byte("019-T :x")
+		var tails []string
+		for _, a := range alpha {
+			tails = append(tails, string(a))
+			for _, b := range alpha {
+				tails = append(tails, string([]byte{a, b}))
+			}
+		}
+		tails = append(tails, "-17", "-xx", "T-00", "-00", "-1-", " 00:00:00", "T15:12:55Z", "Z", "\n", "\r\n", "\t", "\v", "\f", "\u00a0", "\u0085", "\u2028", "\u3000", "\x00", "-01-01", "0101", "2020-01-01", "-2020-01-01")
+		bases := []string{"2020-11-05", "20201105", "12345-12-31", "1234567-01-02", "123456789-01-01", "0001-01-01", "2020011-05", "2020-02-29", "999999999-12-31", "1234561231"}
+		for _, lim := range []int{0, 10, 13, 15, 24} {
+			lim := lim
+			restore := setLimit(lim)
+			r.Parallel(int64(len(bases)), 1, func(w *vkit.W, lo, hi int64) {
+				for i := lo; i < hi; i++ {
+					for _, tl := range tails {
+						for _, text := range []string{bases[i] + tl, tl + bases[i], tl + bases[i] + tl} {
+							for _, rule := range rules {
+								judge(Case{Text: vkit.B(text), Rule: rule, Limit: lim}, w)
+								w.EvalRandom(vkit.Hash64(text, strconv.Itoa(rule), strconv.Itoa(lim)), true)
+							}
+						}
+					}
+				}
+			})
+			restore()
+		}
+	})
+
 	// Phase H: the limit is a setting: the same text is parsed again after MaxInputLength was lowered, raised and disabled.
 	r.Phase("H: histories - valid texts re-parsed while MaxInputLength changes between the calls", func() {
 		r.Serial(func(w *vkit.W) {
